@@ -3,7 +3,7 @@
    applying the sent entries in order holds exactly the requested set at every idle point) and the refresh bound;
    both are judged on every run by check_C14 on implementation traces. *)
 From PS Require Import Lib.Base Generated.Consts Model.SdTypes Model.Config Model.Session Model.StackTypes Model.Stack
-  Proofs.StackOpsProofs.
+  Proofs.StackOpsProofs Model.StackIO Spec.TraceSpec.
 
 Theorem C14_message_content : forall ttl remote gs w,
   send_subscribe ttl remote gs w = send_sd (map (fun g => create_subscribe_entry g ttl 0) gs) (Some remote) w.
@@ -19,6 +19,15 @@ Proof. exact subscribe_while_alive. Qed.
 Theorem C14_stop_unknown_is_noop : forall g ep send w,
   remove_first sub_entry_eqb (g, ep) (sub_entries w) = None -> stop_subscribe_eventgroup g ep send w = w.
 Proof. exact stop_subscribe_unknown. Qed.
+
+(* application calls made one or more loop iterations into an instant (ApiSoon) are judged as taking effect after the
+   other events of that instant, fewer iterations first; events of other instants keep their places *)
+Example C14_deferred_calls_are_ordered_behind_their_instant :
+  map (fun e => (fst e, ev_hops e))
+      (order_events [(1, HApi (ApiSoon (ApiSoon ApiSubStart))); (1, HApi ApiStart); (1, HApi (ApiSoon ApiStop)); (1, HApi ApiAnnStart); (2, HApi ApiStop)])
+  = [(1, 0%nat); (1, 0%nat); (1, 1%nat); (1, 2%nat); (2, 0%nat)]
+  /\ exec_api (ApiSoon ApiStop) = call_soon (HApi ApiStop).
+Proof. split; reflexivity. Qed.
 
 Print Assumptions C14_message_content.
 Print Assumptions C14_entry_content.
